@@ -28,6 +28,7 @@ type xop struct {
 	Kind string `json:"k"` // join | append
 	Dst  int    `json:"dst"`
 	Src  int    `json:"src,omitempty"`
+	Size *int   `json:"size,omitempty"` // join: size bound (nil: unbounded)
 }
 
 type c14Prog struct {
@@ -42,6 +43,9 @@ func genC14(t *rapid.T) c14Prog {
 	p := c14Prog{Setup: sim.Gen(t, cfg)}
 	n := p.Setup.Replicas
 	nt := rapid.IntRange(2, 4).Draw(t, "threads")
+	// one program in eight also makes size-bounded merges (logs are then windows: only the clauses the statement
+	// keeps for them are asserted)
+	bounded := rapid.IntRange(0, 7).Draw(t, "withBounded") == 5
 	for i := 0; i < nt; i++ {
 		k := rapid.IntRange(1, 3).Draw(t, "nops")
 		var ops []xop
@@ -51,6 +55,10 @@ func genC14(t *rapid.T) c14Prog {
 				o.Src = rapid.IntRange(0, n-1).Draw(t, "src")
 				if o.Src == o.Dst {
 					o.Src = (o.Dst + 1) % n
+				}
+				if bounded && rapid.IntRange(0, 2).Draw(t, "isBounded") == 0 {
+					sz := rapid.IntRange(0, 6).Draw(t, "size")
+					o.Size = &sz
 				}
 			}
 			if os.Getenv("VERIF_C14_NOCROSS") == "1" { // search aid: merges only into log 0, other operations only on the sources
@@ -94,11 +102,14 @@ func stateOf(l *ipfslog.IPFSLog, step int) logState {
 }
 
 // structural check of a log state: heads ⊆ entries, causally closed, heads == unreferenced.
-func checkStructure(w *sim.World, st logState) string {
+func checkStructure(w *sim.World, st logState, windowed bool) string {
 	for h := range st.heads {
 		if !st.entries.Has(h) {
 			return fmt.Sprintf("head %s is not an entry of the log", world.Short(h))
 		}
+	}
+	if windowed {
+		return "" // a size-bounded merge leaves a window of the history: closure and the exact head set are not promised
 	}
 	referenced := world.Set{}
 	for h := range st.entries {
@@ -121,6 +132,25 @@ func checkStructure(w *sim.World, st logState) string {
 	return ""
 }
 
+// hasBounded reports whether the program makes size-bounded merges.
+func hasBounded(p c14Prog) bool {
+	for _, th := range p.Threads {
+		for _, op := range th {
+			if op.Size != nil {
+				return true
+			}
+		}
+	}
+	return false
+}
+
+func sizeOf(op xop) int {
+	if op.Size != nil {
+		return *op.Size
+	}
+	return -1
+}
+
 // C14, cooperative engine.
 func runC14Coop(tb ev.TB, p c14Prog) ev.Result { return runMultiLog("C14")(tb, p) }
 
@@ -140,6 +170,7 @@ func runMultiLogImpl(tb ev.TB, p c14Prog, prop string) ev.Result {
 		}
 	})
 	n := len(w.Reps)
+	windowed := hasBounded(p)
 	logs := make([]*ipfslog.IPFSLog, n)
 	index := map[*ipfslog.IPFSLog]int{}
 	for i, r := range w.Reps {
@@ -182,7 +213,7 @@ func runMultiLogImpl(tb ev.TB, p c14Prog, prop string) ev.Result {
 		case "unlock.w":
 			st := stateOf(e.Log, step)
 			hist[li] = append(hist[li], st)
-			if msg := checkStructure(w, st); msg != "" {
+			if msg := checkStructure(w, st, windowed); msg != "" {
 				failures = append(failures, fmt.Sprintf("after T%d released L%d: %s", e.Thread, li, msg))
 			}
 			// another thread's join reading this log as source is in flight: the source was mutated during the merge
@@ -194,7 +225,7 @@ func runMultiLogImpl(tb ev.TB, p c14Prog, prop string) ev.Result {
 					crossOverlap = true
 				}
 			}
-			if jc.active && jc.dst == li && jc.before != nil {
+			if jc.active && jc.dst == li && jc.before != nil && !windowed {
 				// result must be before ∪ S for some state S the source really had between call and return
 				okUnion := false
 				var tried []string
@@ -249,7 +280,7 @@ func runMultiLogImpl(tb ev.TB, p c14Prog, prop string) ev.Result {
 						si = (si + 1) % n
 					}
 					cur[ti] = joinCtx{active: true, dst: op.Dst % n, src: si, callStep: len(sch.Trace)}
-					_, err := d.Join(logs[si], -1)
+					_, err := d.Join(logs[si], sizeOf(op))
 					cur[ti].active = false
 					if err != nil {
 						mu.Lock()
@@ -266,6 +297,9 @@ func runMultiLogImpl(tb ev.TB, p c14Prog, prop string) ev.Result {
 		return ev.Result{Classes: []string{"inconclusive"}}
 	}
 	if prop != "C14" {
+		if windowed {
+			return ev.Result{Classes: []string{"not-this-property(size-bounded merges)"}}
+		}
 		if out.Deadlock || len(out.Panics) > 0 {
 			return ev.Result{Classes: []string{"not-this-property(deadlock/panic: C14)"}}
 		}
@@ -300,13 +334,16 @@ func runMultiLogImpl(tb ev.TB, p c14Prog, prop string) ev.Result {
 	}
 	// final: every log is structurally sound
 	for i, l := range logs {
-		if msg := checkStructure(w, stateOf(l, 0)); msg != "" {
+		if msg := checkStructure(w, stateOf(l, 0), windowed); msg != "" {
 			tb.Fatalf("final state of L%d: %s", i, msg)
 		}
 	}
 	cl := []string{}
 	if len(p.Setup.Preload) > 0 {
 		cl = append(cl, "large-logs")
+	}
+	if windowed {
+		cl = append(cl, "with-size-bounded-merges")
 	}
 	if srcMutatedDuringJoin {
 		cl = append(cl, "source-mutated-during-merge")
@@ -329,7 +366,7 @@ func TestC03Multi(t *testing.T) {
 
 func TestC14Coop(t *testing.T) {
 	c := ev.Get("C14")
-	c.Rule = "generated concurrent programs over 2-3 logs built by a generated setup history (in a few percent of the cases each log additionally starts as a replica of one long history of 1030-1290 entries): 2-4 logical threads each run 1-3 operations from {X.Join(Y), X.Append} with generated X, Y (so merges from a log that is concurrently appended to, merged into, or merging back). Engine E1 (cooperative scheduler): every lock request/release of every log and the points join.locked / join.afterValidate / join.beforeHeads are scheduling points, the interleaving is a generated choice list, deadlock is detected exactly. At every write-unlock of a log its state (read without locks) must have heads ⊆ entries, be causally closed and have heads == unreferenced; for a Join the result must equal (destination at lock time) ∪ S for some state S the source log had between the call and the return (states recorded at every write-unlock). Engine E2 (TestC14Free, -race): the same programs on free goroutines with a 20 s watchdog whose expiry is a violation only if the goroutine dump shows the log locks held. Non-trivial = the source was mutated by another thread while a merge from it was in flight, or two merges in opposite directions overlapped; distinct = distinct program."
+	c.Rule = "generated concurrent programs over 2-3 logs built by a generated setup history (in a few percent of the cases each log additionally starts as a replica of one long history of 1030-1290 entries): 2-4 logical threads each run 1-3 operations from {X.Join(Y), X.Append} with generated X, Y (one program in eight also makes size-bounded merges X.Join(Y, n): for those programs only deadlock freedom, no panic and 'every head is an entry' are asserted, since logs are windows then) (so merges from a log that is concurrently appended to, merged into, or merging back). Engine E1 (cooperative scheduler): every lock request/release of every log and the points join.locked / join.afterValidate / join.beforeHeads are scheduling points, the interleaving is a generated choice list, deadlock is detected exactly. At every write-unlock of a log its state (read without locks) must have heads ⊆ entries, be causally closed and have heads == unreferenced; for a Join the result must equal (destination at lock time) ∪ S for some state S the source log had between the call and the return (states recorded at every write-unlock). Engine E2 (TestC14Free, -race): the same programs on free goroutines with a 20 s watchdog whose expiry is a violation only if the goroutine dump shows the log locks held. Non-trivial = the source was mutated by another thread while a merge from it was in flight, or two merges in opposite directions overlapped; distinct = distinct program."
 	c.Assumptions = []string{"interleavings are explored at hook granularity", "E2's deadlock verdict needs the goroutine dump to show goroutines parked on the logs' RWMutex"}
 	ev.Check(t, "C14", genC14, runC14Coop)
 }
@@ -348,6 +385,7 @@ func runC14Free(tb ev.TB, p c14Prog) ev.Result {
 	for r := 0; r < rep; r++ {
 		w := sim.Run(tb, &p.Setup, nil)
 		n := len(w.Reps)
+		windowed := hasBounded(p)
 		var wg sync.WaitGroup
 		start := make(chan struct{})
 		var mu sync.Mutex
@@ -379,7 +417,7 @@ func runC14Free(tb ev.TB, p c14Prog) ev.Result {
 					if si == op.Dst%n {
 						si = (si + 1) % n
 					}
-					_, err := d.Join(w.Reps[si].Log, -1)
+					_, err := d.Join(w.Reps[si].Log, sizeOf(op))
 					atomic.AddInt32(&running, -1)
 					if err != nil {
 						mu.Lock()
@@ -407,7 +445,7 @@ func runC14Free(tb ev.TB, p c14Prog) ev.Result {
 			tb.Fatalf("%s", errs[0])
 		}
 		for i, rp := range w.Reps {
-			if msg := checkStructure(w, stateOf(rp.Log, 0)); msg != "" {
+			if msg := checkStructure(w, stateOf(rp.Log, 0), windowed); msg != "" {
 				tb.Fatalf("final state of L%d: %s", i, msg)
 			}
 		}
